@@ -43,7 +43,7 @@ POPULATE_OTHER = {"compute_global_pixelization", "process", "_tile_hips", "_tile
 def run(run):
     run.explanation = EXPLANATION
     run.assumptions += ["WWT clients expand {1}, {2}, {3} in the Url attribute as level, x, y"]
-    for r, n in (("C17.R1", 3), ("C17.R2", 2), ("C17.R3", 3), ("C17.R4", 7), ("C17.R5", 2)):
+    for r, n in (("C17.R1", 3), ("C17.R2", 2), ("C17.R3", 3), ("C17.R4", 7), ("C17.R5", 2), ("C17.R6", 1)):
         run.floor(r, n)
     _r1_paths(run)
     _r2_builder(run)
@@ -55,6 +55,14 @@ def run(run):
     _common.delegate(run, "C17.R3", "C08", c08.geometry_premises, only_rules={"C08.R4"}, note="premise: TileLevels of a multi-image mosaic")
     _r4_emitters(run)
     _r5_fits_tiler(run)
+    # the description handed back on the reuse path is what the directory's index says *now*: no remembered copy that can
+    # survive a rewrite of the directory
+    from . import memo
+    n_tab = memo.check_module(run, "C17.R6", FT)
+    if not memo.selfcheck():
+        run.undecided("C17.R6", None, None, "memo rule self-check failed", kind="selfcheck", construct="<memo selfcheck>")
+    if not [o for o in run.obs if o.rule == "C17.R6"]:
+        run.holds("C17.R6", run.project.fn(FT + ".FitsTiler.tile"), None, "toasty.fits_tiler keeps no module-level / class-level table (%d uses); positive example flagged" % n_tab)
 
 
 def _r1_paths(run):
